@@ -133,6 +133,12 @@ func expand(reg *registry.Registry, t *Transaction, accrual *syntax.Accrual) ([]
 		}
 		if p.Account.IsIE() {
 			partition := date.NewPartition(date.Period{Start: start, End: end}, interval, 0)
+			if partition.Size() == 0 {
+				return nil, syntax.Error{
+					Message: "accrual period is empty",
+					Range:   accrual.Range,
+				}
+			}
 			amount, rem := p.Quantity.QuoRem(decimal.NewFromInt(int64(partition.Size())), 1)
 			for i, dt := range partition.EndDates() {
 				a := amount
